@@ -2,7 +2,7 @@ from dataclasses import dataclass
 
 from mypy.nodes import AssignmentStmt, DelStmt, IndexExpr, ListExpr, SliceExpr
 
-from refurb.checks.common import get_mypy_type, is_same_type, stringify
+from refurb.checks.common import get_mypy_type, is_same_type, stringify, stringify_operand
 from refurb.error import Error
 
 
@@ -63,6 +63,6 @@ def check(node: DelStmt | AssignmentStmt, errors: list[Error]) -> None:
             return
 
     if is_same_type(get_mypy_type(base), list):
-        msg = f"Replace `{stringify(node)}` with `{stringify(base)}.clear()`"
+        msg = f"Replace `{stringify(node)}` with `{stringify_operand(base, '.')}.clear()`"
 
         errors.append(ErrorInfo.from_node(node, msg))
